@@ -2,9 +2,10 @@
 import glob
 import json
 import os
+import re
 
 from .core import REPO, ToolError, b2s, log, pgv, read_ndjson, run_tlc
-from .steps import replay_cases, tlc_cases, validate_pure_trace, validate_stateful_trace
+from .steps import replay_cases, tlc_cases, validate_programs, validate_pure_trace, validate_stateful_trace
 
 REGISTRY = {}
 
@@ -167,6 +168,9 @@ def c19(run, scratch):
     validate_pure_trace(run, scratch, "Trace_Meta", "Trace_Meta", events, workers=14 if thorough else 10,
                         timeout=3000, corrupt=_meta_corrupt,
                         signature=lambda ev: {"n_items": len(ev["items"])})
+    # histories: metadata of mapping values, sub-mappings and clones after every short program of calls; here the
+    # item stream is the specification's own (MappingSyntax), not the recorded one
+    system_programs(run, scratch, "meta", 5 if thorough else 4)
     run.exhaustive = False
     run.assumptions += ["TLC + Json module", "item abstraction (kind, line-mapping presence, header key/value) is recorded "
                         "faithfully by the harness; parser questions belong to C05/C06"]
@@ -247,6 +251,11 @@ def _show_answer(a):
     return out
 
 
+def _retrace_canary_pred(ev):
+    # a frame query (its answer is a list of frame records, which the corrupted value is comparable with)
+    return ev["t"] == "q" and ev["sid"] == 1 and ev["q"]["t"] == "frame"
+
+
 def _retrace_trace_corrupt(ev):
     ev["got"]["cache"] = [{"canary": 1}]
     ev["got"]["mapper"] = [{"canary": 1}]
@@ -263,7 +272,7 @@ def retrace_trace(run, scratch, name, focus, n, queries, files, workers=10, time
         run.sample({"trace_event": {"session": e["sid"], "query": _show_query(e["q"]),
                                     "cache_answer": _show_answer(e["got"]["cache"]) if isinstance(e["got"]["cache"], list) else e["got"]["cache"]}})
     wf, _ = validate_pure_trace(run, scratch, name, "Trace_Retrace", events, workers=workers, timeout=timeout,
-                                corrupt=_retrace_trace_corrupt, canary_pred=lambda ev: ev["t"] == "q" and ev["sid"] == 1,
+                                corrupt=_retrace_trace_corrupt, canary_pred=_retrace_canary_pred,
                                 signature=lambda ev: {"query_kind": ev.get("q", {}).get("t")})
     run.steps[-1]["sessions"] = nload
     run.steps[-1]["sessions_in_stated_domain"] = len([i for i in wf if i < nload])
@@ -322,6 +331,32 @@ def system_traces(run, scratch, programs, steps):
         validate_stateful_trace(run, scratch, name, "Trace_System", events, nload, idx, corrupt,
                                 signature=lambda b: {"call": b.get("t")})
         run.steps[-1]["calls"] = {t: len([e for e in events if e["t"] == t]) for t in ("mapper", "write", "parse", "q", "begin", "next")}
+
+
+def system_programs(run, scratch, focus, depth):
+    """every program of `depth` API calls TLC enumerates from MC_System (token data layer), run against the
+    library by the harness and validated call by call against System.tla with the real data layer"""
+    name = f"MC_System_{focus}"
+    cfgp = scratch.path(f"{name}_d{depth}.cfg")
+    base = open(scratch.path(f"MC_System_{focus}.cfg")).read()
+    open(cfgp, "w").write(re.sub(r"Depth = \d+", f"Depth = {depth}", base))
+    cases = tlc_cases(run, scratch, f"{name}_d{depth}", "MC_System", cfg=os.path.basename(cfgp), workers=6, timeout=1800)
+    if not cases:
+        return
+    from .core import write_ndjson
+    cpath = scratch.path(f"programs-{focus}.ndjson")
+    write_ndjson(cpath, cases)
+    out = scratch.path(f"events-system-{focus}.ndjson")
+    pgv(["trace", "system", out, "--seed", str(run.seed), "--n", "0", "--cases", cpath])
+    events = read_ndjson(out)
+    nload = len([e for e in events if e["t"] == "load"])
+    run.sample({"program": [[s["t"], s["x"], s["y"], s["z"]] for s in cases[len(cases) // 2]["prog"]]})
+
+    def corrupt(ev):
+        ev["got"] = [[99, 97, 110, 97, 114, 121]]
+        return ev
+    validate_programs(run, scratch, f"Trace_System_programs_{focus}", "Trace_System", events, nload, corrupt)
+    run.steps[-1]["programs_from_tlc"] = len(cases)
 
 
 COMMON_ASSUME = ["TLC (tla2tools 1.8.0) and its Json/IOUtils module overrides",
@@ -392,6 +427,7 @@ def c02(run, scratch):
                   workers=14 if t else 10)
     blocks_trace(run, scratch, 100000 if t else 150)
     system_traces(run, scratch, 8 if t else 3, 600 if t else 400)
+    system_programs(run, scratch, "query", 5 if t else 4)
     # the remaining query kinds of the statement: text and typed stack traces, signatures (mapper = cache = spec)
     text_trace(run, scratch, "Trace_Text_all", "all", 60 if t else 15, 40, _c07_corrupt,
                lambda e: e["t"] == "text" and len(e["text"]) > 0, workers=14 if t else 10)
@@ -659,6 +695,7 @@ def c14(run, scratch):
     run.add_tlc("MC_CacheParse", r, note="implied length arithmetic")
     # histories of whole programs: every write of one mapping gives the same bytes whatever happened in between
     system_traces(run, scratch, 6 if t else 2, 600 if t else 400)
+    system_programs(run, scratch, "write", 5 if t else 4)
     run.exhaustive = False
     run.assumptions += COMMON_ASSUME + ["hash seeds differ between processes (std RandomState); in-process repeats and 4 threads per mapping"]
 
@@ -839,6 +876,8 @@ def c18(run, scratch):
     validate_pure_trace(run, scratch, "Trace_Uuid", "Trace_Uuid", events, workers=14, timeout=3000,
                         corrupt=_c18_corrupt, signature=lambda ev: {"len": len(ev["bytes"])})
     run.extra["total_input_bytes_hashed_by_tlc"] = sum(len(e["bytes"]) for e in events)
+    # histories: the identifier of a mapping value, a sub-mapping or a clone after every short program of calls
+    system_programs(run, scratch, "meta", 5 if t else 4)
     run.exhaustive = False
     run.assumptions += ["SHA-1 / UUIDv5 are transcribed into TLA+ (spec/lib/Sha1.tla, spec/Uuid.tla) and evaluated by TLC with the "
                         "Bitwise module; this is function transcription, not state exploration",
@@ -876,7 +915,7 @@ def c20(run, scratch):
     run.sample({"threads_in_first_session": len({e["thread"] for e in qe if e["sid"] == 1}),
                 "event": {"thread": qe[0]["thread"], "seq": qe[0]["seq"], "query": _show_query(qe[0]["q"])}})
     validate_pure_trace(run, scratch, "Trace_Threads", "Trace_Retrace", events, workers=14 if t else 10, timeout=3000,
-                        corrupt=_retrace_trace_corrupt, canary_pred=lambda ev: ev["t"] == "q" and ev["sid"] == 1,
+                        corrupt=_retrace_trace_corrupt, canary_pred=_retrace_canary_pred,
                         signature=lambda ev: {"thread": ev.get("thread"), "query_kind": ev.get("q", {}).get("t")})
     tev = harness_trace(scratch, "threadstext", "threadstext", ["--seed", run.seed, "--n", 16 if t else 6, "--reps", 300 if t else 150])
 
